@@ -3,11 +3,13 @@
 package crypto
 
 import (
+	"bytes"
 	"crypto/rand"
 	"crypto/sha256"
 	"encoding/binary"
 	"fmt"
 	"io"
+	"math"
 	"sync"
 
 	"golang.org/x/crypto/chacha20poly1305"
@@ -165,21 +167,24 @@ func (s *SessionKey) Decrypt(ciphertext []byte) ([]byte, error) {
 	var nonce [NonceSize]byte
 	copy(nonce[:], ciphertext[:NonceSize])
 
-	// Verify nonce is in expected range (optional, helps detect replay/reorder)
+	// The nonce must belong to the peer's direction (a reflected copy of our
+	// own ciphertext is rejected) and must not be older than the receive window.
+	// The window is only advanced after the message has been authenticated, so
+	// that forged or corrupted input never changes what is accepted afterwards.
 	s.mu.Lock()
+	defer s.mu.Unlock()
+
 	expectedNonce := s.buildRecvNonce()
-	// Allow some slack for out-of-order delivery (up to 1024 messages ahead)
+	if !bytes.Equal(nonce[:4], expectedNonce[:4]) {
+		return nil, fmt.Errorf("unexpected nonce direction")
+	}
 	nonceValue := binary.BigEndian.Uint64(nonce[4:])
-	expectedValue := binary.BigEndian.Uint64(expectedNonce[4:])
-	if nonceValue < expectedValue {
-		s.mu.Unlock()
-		return nil, fmt.Errorf("nonce too old: received %d, expected >= %d", nonceValue, expectedValue)
+	if nonceValue < s.recvNonce {
+		return nil, fmt.Errorf("nonce too old: received %d, expected >= %d", nonceValue, s.recvNonce)
 	}
-	// Update expected nonce if this one is higher
-	if nonceValue >= s.recvNonce {
-		s.recvNonce = nonceValue + 1
+	if nonceValue == math.MaxUint64 {
+		return nil, fmt.Errorf("nonce counter exhausted")
 	}
-	s.mu.Unlock()
 
 	aead, err := chacha20poly1305.New(s.key[:])
 	if err != nil {
@@ -190,6 +195,9 @@ func (s *SessionKey) Decrypt(ciphertext []byte) ([]byte, error) {
 	if err != nil {
 		return nil, fmt.Errorf("decrypt: %w", err)
 	}
+
+	// Authenticated: later messages must carry a higher counter
+	s.recvNonce = nonceValue + 1
 
 	return plaintext, nil
 }
